@@ -288,6 +288,7 @@ def check(ctx):
     # every generated file, statement by statement, against semit_all; and the theorem's side condition per grammar
     if pid == "C01":
         st_cmp, st_deep, st_notdeep = 0, 0, []
+        st_prem, st_noprem, st_contra = 0, [], []
         for gid, gi in data["grammars"].items():
             for o, oi in gi["opts"].items():
                 if oi.get("semit") is None or oi.get("stmts") is None or oi.get("conv_err"):
@@ -297,6 +298,13 @@ def check(ctx):
                     st_deep += 1
                 else:
                     st_notdeep.append("%s/%s" % (gid, o))
+                # the premises under which the side condition is a theorem (C01_side_condition_always_holds)
+                if oi.get("alt2") and oi.get("closed"):
+                    st_prem += 1
+                    if not oi.get("deep"):
+                        st_contra.append("%s/%s" % (gid, o))
+                else:
+                    st_noprem.append("%s/%s alt2=%d closed=%d" % (gid, o, bool(oi.get("alt2")), bool(oi.get("closed"))))
                 if oi["semit"] != oi["stmts"]:
                     ms, ks = oi["semit"].split(";"), oi["stmts"].split(";")
                     k = next((i for i, (a, b) in enumerate(zip(ms, ks)) if a != b), min(len(ms), len(ks)))
@@ -308,7 +316,10 @@ def check(ctx):
                     rec = dict(g=gid, o=o, inputs=[""], kind="gen", cid="%s/%s/semit" % (gid, o), impl=None, model=None, spec=None)
                     diffs.append((rec, "statements", d, False))
         ctx.coverage["statement_level"] = {"files_compared": st_cmp, "side_condition_deep_table_b_true": st_deep,
-                                           "side_condition_false": st_notdeep[:10]}
+                                           "side_condition_false": st_notdeep[:10],
+                                           "premises_alt2_and_closed_names_true": st_prem,
+                                           "premises_false": st_noprem[:10],
+                                           "premises_true_but_side_condition_false": st_contra[:10]}
     # side conditions of the theorems, re-evaluated by the extracted checkers for every grammar / option set used
     for gid, gi in data["grammars"].items():
         for o in opts:
